@@ -579,6 +579,46 @@ Case gen_case(const std::string &profile, uint64_t seed, const GenOpts &go) {
         c.ops.push_back(op);
         return c;
     }
+    if (profile == "sym") {
+        c.prec = go.force_prec >= 0 ? go.force_prec : (int)rc.below(4);
+        int n = pick_n(rc, go.tier); if (n < 2) n = (int)rc.range(2, 20);
+        static const int fams[] = {F_RANDOM, F_BAND, F_ARROW, F_GRID, F_BLOCKDIAG, F_DENSEROWCOL, F_BLOCKTRI, F_CHAINFOREST, F_DENSE};
+        int fam = fams[rc.below(9)];
+        Pattern P = gen_pattern(rc, n, fam);
+        for (int j = 0; j < n; ++j) P.col[j].insert(j);                       // full diagonal
+        bool symm = rc.chance(0.5);
+        if (symm) for (int j = 0; j < n; ++j) for (int i : std::set<int>(P.col[j])) P.col[i].insert(j);
+        for (int j = 0; j < n; ++j) P.transversal[j] = j;
+        c.M = pattern_to_mat(P); c.family = std::string(family_names[fam]) + (symm ? "+symmetrized" : "+unsymmetric"); c.transversal = P.transversal;
+        bool cpx = prec_is_complex(c.prec);
+        // row- and column-diagonally dominant values
+        std::vector<cld> v(c.M.rowind.size());
+        std::vector<ld> rsum(n, 0), csum(n, 0);
+        for (int j = 0; j < n; ++j) for (int k = c.M.colptr[j]; k < c.M.colptr[j + 1]; ++k) {
+            int i = c.M.rowind[k]; if (i == j) continue;
+            cld x = rand_unit(rc, cpx) * (ld)(0.05 + 0.95 * rc.unit()) * (rc.chance(0.2) ? 100.0L : 1.0L);
+            v[k] = x; rsum[i] += absl_(x); csum[j] += absl_(x);
+        }
+        for (int j = 0; j < n; ++j) for (int k = c.M.colptr[j]; k < c.M.colptr[j + 1]; ++k) if (c.M.rowind[k] == j)
+            v[k] = rand_unit(rc, cpx) * ((rsum[j] + csum[j]) * (ld)(1.1 + rc.unit()) + (ld)0.5);
+        for (auto &x : v) x = round_prec(x, c.prec);
+        c.values.push_back(v); c.M.val = v; c.valclass = "row_and_column_dominant";
+        c.stype_nr = rc.chance(0.2) ? 1 : 0;
+        c.nrhs = (int)rc.range(1, 2); c.ldb = n;
+        std::vector<cld> b((size_t)c.ldb * c.nrhs); for (auto &x : b) x = round_prec(cld((ld)(rc.unit() * 2 - 1), cpx ? (ld)(rc.unit() * 2 - 1) : 0), c.prec);
+        c.rhs.push_back(b);
+        c.colperm = rc.chance(0.85) ? 2 : (int)rc.below(4);   // MMD on A^T+A is the documented set-up; others are co-observed
+        OpSpec op;
+        gen_tunables(rc, op.ienv, n);
+        if (op.ienv[3] < op.ienv[2]) op.ienv[3] = op.ienv[2];
+        op.dyn_snode = false;
+        op.kind = OP_GSSVX; op.x.sym_mode = 1; op.x.u = 0.0; op.x.fact = rc.chance(0.3) ? 1 : 0; op.x.trans = (int)rc.below(2);
+        op.x.nprocs = rc.chance(0.15) ? 1 : (int)rc.range(2, 8);
+        op.x.panel_size = (int)op.ienv[1]; op.x.relax = (int)op.ienv[2];
+        gen_sched(rs, op.sched, op.x.nprocs, baseline, profile);
+        c.ops.push_back(op);
+        return c;
+    }
     // unknown profile: empty case
     return c;
 }
